@@ -16,8 +16,8 @@ RULE = ('case = (record lengths, content class, blocked?, writer API, reader API
 ASSUMPTIONS = ['vmon/ref/blocking.py', 'io.BytesIO', 'records are non-empty and at most MAX_VBS_RECORD_LENGTH (6000) bytes']
 CONTENTS = ('coded', 'zeros', 'fill', 'term_head', 'term_tail', 'pad_head', 'pad_tail', 'random')
 WRITE_APIS = ('class_close', 'with', 'write_many', 'conv')
-READ_APIS = ('class', 'conv')
-_CODED = coded(6100)
+READ_APIS = ('class', 'conv', 'next_then_for', 'for_break_for', 'list_twice')
+_CODED = coded(10200)
 
 
 def prepare(ctx):
@@ -68,8 +68,16 @@ def cases(ctx):
                         lens = [first, 7, 1012 - 11 - 4, 3]
                         if first >= 1:
                             yield {'kind': 'list', 'lens': lens, 'content': cls, 'blocked': blocked,
-                                   'wapi': WRITE_APIS[(k + d) % 4], 'rapi': READ_APIS[d % 2]}
+                                   'wapi': WRITE_APIS[(k + d) % 4], 'rapi': READ_APIS[(k + d) % 5]}
                     i += 1
+    # the configured maximum is whatever the configuration says now: records up to a raised maximum must survive too
+    for newmax in (10000, 6500, 3000):
+        for blocked in (False, True):
+            i += 1
+            if ctx.mine(i):
+                top = newmax
+                yield {'kind': 'list', 'lens': [top, 1, top - 1, (top + 6000) // 2 if top > 6000 else top // 2], 'content': 'coded', 'blocked': blocked,
+                       'wapi': 'class_close', 'rapi': 'class', 'configured_max': newmax}
     # seeded lists
     rng = ctx.rng('lists')
     for j in range((1500 if ctx.tier == 'quick' else 400000) // ctx.nshards + 1):
@@ -119,7 +127,35 @@ def read_file(ctx, data, blocked, rapi):
     def body():
         if rapi == 'conv':
             return m.vbs_bytes_to_list(data, blocked=blocked)
-        return list(m.VbsReader(io.BytesIO(data), blocked=blocked))
+        r = m.VbsReader(io.BytesIO(data), blocked=blocked)
+        if rapi == 'next_then_for':
+            out = []
+            try:
+                out.append(next(r))
+            except StopIteration:
+                return out
+            for rec in r:
+                out.append(rec)
+            return out
+        if rapi == 'for_break_for':
+            out = []
+            broke = False
+            for rec in r:
+                out.append(rec)
+                if len(out) == 2:
+                    broke = True
+                    break
+            if broke:                   # resume a reader that was left mid-file (an exhausted one is not touched again)
+                for rec in r:
+                    out.append(rec)
+            return out
+        if rapi == 'list_twice':
+            first = list(r)
+            if not blocked:
+                # an exhausted reader stays exhausted (for blocked files what follows the terminator is fill, not judged here)
+                first += list(r)
+            return first
+        return list(r)
     ctx.count('files read via ' + rapi)
     return ctx.call(body, budget=40000 + 2 * len(data))
 
@@ -180,7 +216,17 @@ def judge(ctx, case):
                 ctx.sample({'single_record_length': n, 'content': cls})
         return
     recs = records_for(case)
-    ok = check(ctx, case, recs, case['blocked'], case['wapi'], case['rapi'])
+    if case.get('configured_max'):
+        from cardutil.config import config as live
+        old = live.get('MAX_VBS_RECORD_LENGTH')
+        live['MAX_VBS_RECORD_LENGTH'] = case['configured_max']
+        ctx.count('lists run with MAX_VBS_RECORD_LENGTH changed at run time')
+        try:
+            ok = check(ctx, case, recs, case['blocked'], case['wapi'], case['rapi'])
+        finally:
+            live['MAX_VBS_RECORD_LENGTH'] = old
+    else:
+        ok = check(ctx, case, recs, case['blocked'], case['wapi'], case['rapi'])
     ctx.case_done(['list', case['lens'], case['content'], case['blocked'], case['wapi'], case['rapi'], case.get('salt')],
                   nontrivial=bool(recs))
     stream_pos = 0
@@ -210,6 +256,8 @@ def require(m):
     for api in WRITE_APIS:
         if not c.get('files written via ' + api):
             reasons.append('writer API %s never driven' % api)
+    if not c.get('lists run with MAX_VBS_RECORD_LENGTH changed at run time'):
+        reasons.append('configured maximum never changed at run time')
     for api in READ_APIS:
         if not c.get('files read via ' + api):
             reasons.append('reader API %s never driven' % api)
